@@ -332,11 +332,26 @@ func itoaBinary(x int) []byte {
 	return digits
 }
 
+// asInt32 converts a DICT operand to an integer.  An integer may be stored
+// in the real number format ("7.0"): the CFF specification only knows the
+// operand type "number".
+func asInt32(v interface{}) (int32, bool) {
+	switch x := v.(type) {
+	case int32:
+		return x, true
+	case float64:
+		if i := int32(x); float64(i) == x {
+			return i, true
+		}
+	}
+	return 0, false
+}
+
 func (d cffDict) getInt(op dictOp, defVal int32) int32 {
 	if len(d[op]) != 1 {
 		return defVal
 	}
-	x, ok := d[op][0].(int32)
+	x, ok := asInt32(d[op][0])
 	if !ok {
 		return defVal
 	}
@@ -374,7 +389,7 @@ func (d cffDict) getDeltaF16(op dictOp) []funit.Int16 {
 	res := make([]funit.Int16, len(values))
 	var prev funit.Int16
 	for i, v := range values {
-		x, ok := v.(int32)
+		x, ok := asInt32(v)
 		if !ok {
 			return nil
 		}
